@@ -13,7 +13,7 @@ MSGS = [0, 1, R - 1, R, R + 1, (1 << 256) - 1, 2]
 def worker(sh):
     rng = sh.rng
     sc = wkd.Script(rng)
-    l = [3, 3, 3, 1, 2, 4, 5, 33, 8, 8, 12, 20, 6, 3, 65, 8][sh.index]
+    l = [3, 3, 3, 1, 2, 4, 5, 33, 8, 257, 12, 20, 6, 3, 65, 8][sh.index]
     # two shards run hierarchies WITHOUT signature support: signing still yields a verifying signature for the list (the message is
     # then not bound, by construction, so the other-message negatives do not apply there)
     sigsup = sh.index not in (6, 13)
